@@ -55,13 +55,19 @@ def run(facts, rep, ctx):
             continue
         bad1 = None
         bad2 = None
+        unk2 = None
+        elementwise = elementwise_added = False
         iters = 0
         rets = 0
         for p in paths:
             nxt = None
+            inner_next = []
             for (bb, term, vals, neg, dty) in p.conds:
                 if term[0] == "discr" and term[1][0] == "call" and term[1][1].endswith("Iterator>::next"):
-                    nxt = (term[1], (vals == (1,)) != neg)
+                    if nxt is None or (iteration_source(nxt[0])[1] != "layers" and iteration_source(term[1])[1] == "layers"):
+                        nxt = (term[1], (vals == (1,)) != neg)
+                    elif nxt is not None and term[1] != nxt[0]:
+                        inner_next.append((term[1], (vals == (1,)) != neg))
             if nxt is None:
                 if p.end == "ret" and is_err_term(p.ret) is not True:
                     bad2 = "a path returns %s without passing the de-duplicating, sorted accumulation (shortcut before the layer loop)" % fmt(p.ret)[:70]
@@ -82,6 +88,11 @@ def run(facts, rep, ctx):
                     bad1 = "stops after the first layer (%s)" % p.end
                 if len(lay) != 1 or item_of_next(lay[0]["args"][0]) is None:
                     bad1 = "does not list the layer being iterated exactly once per iteration"
+                elif any(any(x == lay[0]["val"] for x in walk(t_)) for t_, _ in inner_next):
+                    # an element-wise loop over the layer's result: the additions are on the paths that take an element
+                    elementwise = True
+                    if ext and any(x == lay[0]["val"] for e in ext for x in walk(e["args"][1])):
+                        elementwise_added = True
                 elif not ext or not any(x == lay[0]["val"] for e in ext for x in walk(e["args"][1])):
                     bad1 = "the layer's result is not added to the accumulator"
                 else:
@@ -101,6 +112,13 @@ def run(facts, rep, ctx):
                 sorts = [(i, e) for i, e in enumerate(p.events) if e["k"] == "call" and e["callee"] and e["callee"].rsplit("::", 1)[-1] in ("sort", "sort_unstable")
                          and "<impl [T]>::" in e["callee"]]
                 if not sorts:
+                    ordered_set = any(x[0] == "call" and x[1].endswith("IntoIterator>::into_iter") and "BTreeSet" in x[1] for x in walk(vec))
+                    collected = strip_refs(vec)[0] == "call" and strip_refs(vec)[1].rsplit("::", 1)[-1] in ("collect", "from_iter", "into_sorted_vec")
+                    if ordered_set and collected and not any(x[0] == "call" and x[1].rsplit("::", 1)[-1] in ("rev", "map", "filter", "chain", "skip", "take", "step_by") for x in walk(vec)):
+                        continue      # a BTreeSet drained in order: ascending and duplicate-free by construction
+                    if any("BTree" in (x[1] or "") or "BinaryHeap" in (x[1] or "") for x in walk(vec) if x[0] == "call"):
+                        unk2 = "the returned vector comes out of an ordered container in a way this rule does not read (%s)" % fmt(vec)[:60]
+                        continue
                     bad2 = "the returned vector is not sorted (no sort/sort_unstable)"
                     continue
                 si, se = sorts[-1]
@@ -121,13 +139,17 @@ def run(facts, rep, ctx):
         if iters == 0 or rets == 0:
             rep.inconc(R1, "%s: loop shape not recognised" % name)
             continue
+        if elementwise and not elementwise_added and not bad1:
+            bad1 = "the layer's result is walked element by element but no element is added to the accumulator"
+        if unk2 and not bad2:
+            rep.inconc(R2, "%s: %s" % (name, unk2))
         if bad1:
             rep.violation(R1, b.name, "union", "%s: %s" % (name, bad1), "%s:%s" % (b.file, b.line))
         else:
             rep.ok(R1, {"fn": b.name})
         if bad2:
             rep.violation(R2, b.name, "sorted-last", "%s: %s" % (name, bad2), "%s:%s" % (b.file, b.line))
-        else:
+        elif not unk2:
             rep.ok(R2, {"fn": b.name})
     c14.uniform_application(facts, rep, R3, only=("list", "subdirectories"))
 
